@@ -274,6 +274,14 @@ class Interp:
             cur = self.eval(_load(st.target), fr)
             self.record("inplace", type(st.op).__name__, [cur], {}, st, {"fresh": getattr(cur, "fresh", None)})
             v = self.binop(st.op, cur, self.eval(st.value, fr), st)
+            vo = getattr(cur, "view_of", None)
+            if vo is not None and isinstance(st.target, ast.Name) and isinstance(v, Val):
+                # the name is bound to a view of a column of another array: the in-place operation writes through to that array
+                arr_, k_ = vo
+                g_ = self.store_guard()
+                arr_.cols[k_] = v.term if g_ is None else mk("ite", g_, v.term, arr_.cols[k_])
+                v.view_of = vo
+                self.record("inplace", "through-view", [arr_, v], {}, st, {"column": k_})
             self.assign(st.target, v, fr, st, aug=True)
             return Flow.NORMAL
         if isinstance(st, ast.Return):
